@@ -38,8 +38,8 @@ var (
 
 // Event mirrors the engine's monitor record (empty natively).
 type Event struct {
-	Kind, A, B uint64
-	Obj        interface{}
+	Kind, A, B, C uint64
+	Obj           interface{}
 }
 
 const (
